@@ -68,6 +68,32 @@ func vfC25Wild(r *rand.Rand, depth int) *vfExpr {
 	return leaf()
 }
 
+// vfC25Arith: chains of 2-4 arithmetic operators over the numeric columns and constants whose quotients do not
+// terminate (3, 7, 1.1, 17 ...), mostly * and /: the language evaluates a / b / c as a / (b * c), regroups
+// products and keeps 16 digits, so the evaluator in the query engine has to round at the same places
+func vfC25Arith(r *rand.Rand) *vfExpr {
+	consts := []vfLit{vfInt(3), vfInt(7), vfDec("1.1"), vfInt(17), vfInt(-3), vfDec(".5"), vfInt(10), vfInt(9), vfDec(".7"), vfInt(1), vfInt(0)}
+	operand := func() *vfExpr {
+		switch r.IntN(5) {
+		case 0, 1:
+			return vfColRef("a")
+		case 2:
+			return vfColRef("c")
+		}
+		return vfConst(vfPick(r, consts))
+	}
+	e := operand()
+	for n := 2 + r.IntN(3); n > 0; n-- {
+		op := vfPick(r, []string{"div", "div", "div", "mul", "mul", "add", "sub", "mod"})
+		rhs := operand()
+		if r.IntN(6) == 0 {
+			rhs = vfOp("paren", vfOp(vfPick(r, []string{"add", "mul", "div"}), operand(), operand()))
+		}
+		e = vfOp(op, e, rhs)
+	}
+	return e
+}
+
 type vfC25Out struct {
 	val Value
 	err string
@@ -166,6 +192,9 @@ func vfC25Case(rep *vk.Report, d *vfDB, tbl *vfTable, ei int, th *Thread) {
 		} else {
 			e = eg.value(vfPick(r, []vfKind{vfNum, vfStr, vfBool, vfMixed, vfDate}), 3)
 		}
+	} else if ei%4 == 3 {
+		e = vfC25Arith(r)
+		rep.Count("exprs_arithmetic_chains", 1)
 	} else {
 		e = vfC25Wild(r, 1+r.IntN(3))
 	}
@@ -367,13 +396,7 @@ func vfC25Case(rep *vk.Report, d *vfDB, tbl *vfTable, ei int, th *Thread) {
 
 // vfC25Diagnose recognises the analysed defects (known_findings.d/C25.jsonl).
 func vfC25Diagnose(e *vfExpr, lang, other vfC25Out) string {
-	if lang.err == "" && strings.Contains(other.err, "should not reach here") && vfHasConstDiv(e) {
-		return "constant-divided-by-expression"
-	}
-	// the query evaluator stops a & b at a zero left operand (and a | b at all ones) without evaluating b
-	if lang.err != "" && other.err == "" && vfHasOp(e, "bitand", "bitor") {
-		return "bit-operator-short-circuit-skips-failing-operand"
-	}
+	// (both analysed defects - 10 / a in the evaluator, & and | short-circuit - are repaired: 0e34684, a3d0f9e)
 	return ""
 }
 
